@@ -9,3 +9,7 @@ open Biogo.Properties.C02
 #print axioms oneToZero_zeroToOne
 #print axioms zeroToOne_oneToZero
 #print axioms oneToZero_none_iff
+#print axioms gff_roundtrip
+#print axioms gff_coords
+#print axioms gff_text_is_one_based
+#print axioms gff_write_count
